@@ -639,5 +639,6 @@ Proof.
   pose proof (proj1 (gotos_in_scope ast used) _ _ _ _ _ H) as C.
   destruct (proj1 (flag_exact_and_cases ast used) _ _ _ _ _ H) as (D1 & D2).
   destruct (proj1 (declarations_at_head ast used) _ _ _ _ _ H) as (E1 & E2).
-  repeat split; auto.
+  split; [exact A1|]. split; [exact A2|]. split; [exact A3|]. split; [exact B|]. split; [exact C|].
+  split; [exact D1|]. split; [exact D2|]. split; [exact E1|exact E2].
 Qed.
